@@ -237,6 +237,7 @@ class SecurityConfiguratorMixin:
             introspectables=(intr, perm_intr),
         )
 
+    @action_method
     def add_permission(self, permission_name):
         """
         A configurator directive which registers a free-standing
